@@ -66,6 +66,10 @@ fn gen_msg(rng: &mut Rng, strict: bool) -> Item {
         }
         k => gen::handshake(rng, k, budget),
     };
+    if SUPPORTED.contains(&k) {
+        // "decode to the values that were encoded": well-formed (RFC-valid) values only
+        m = gen::rfc_valid(rng, m);
+    }
     if !SUPPORTED.contains(&k) && strict {
         // kinds the property does not list travel only as fragments: make the body fragmentable
         if enc::hs_body(&m).len() < 2 {
